@@ -37,10 +37,10 @@ static void aggA(int Z, double E, double th, double ph) {
 /* c05 <zlo> <zhi> <quick|thorough> */
 int cmd_c05(int argc, char **argv) {
   int zlo = argc > 0 ? atoi(argv[0]) : 0, zhi = argc > 1 ? atoi(argv[1]) : 121; int thorough = argc > 2 && !strcmp(argv[2], "thorough");
-  static const double TH[] = {0.0, 1e-6, 0.2617993877991494, 0.5235987755982988, 0.7853981633974483, 1.0471975511965976, 1.5707963267948966, 2.0943951023931953, 2.356194490192345, 2.6179938779914944, 3.141592653589793, -0.5, 7.0};
-  static const double PH[] = {0.0, 0.7853981633974483, 1.5707963267948966, 3.141592653589793, -1.0, 6.5};
-  /* quick tier: the special angles (0, a micro-radian, pi/2, pi, negative, beyond 2 pi) rather than an even subsample */
-  static const int QTH[] = {0, 1, 4, 6, 10, 11, 12, 3}; static const int QPH[] = {0, 1, 4, 5};
+  static const double TH[] = {0.0, 1e-6, 0.2617993877991494, 0.5235987755982988, 0.7853981633974483, 1.0471975511965976, 1.5707963267948966, 2.0943951023931953, 2.356194490192345, 2.6179938779914944, 3.141592653589793, -0.5, 7.0, 4.0, 4.71238898038469, 6.283185307179586};
+  static const double PH[] = {0.0, 0.7853981633974483, 1.5707963267948966, 3.141592653589793, -1.0, 6.5, 4.0};
+  /* quick tier: the special angles (0, a micro-radian, pi/2, pi, negative, beyond 2 pi, the third quadrant, 2 pi: one per region of the period) rather than an even subsample */
+  static const int QTH[] = {0, 1, 4, 6, 10, 11, 12, 3, 13, 15}; static const int QPH[] = {0, 1, 4, 5, 6};
   uint64_t seed0 = RNG;
   for (int Z = zlo; Z <= zhi; Z++) {
     RNG = seed0 * 7919ULL + (uint64_t)Z;
@@ -58,7 +58,7 @@ int cmd_c05(int argc, char **argv) {
     if (in && NE_Rayl[Z] > 0) { el[ne++] = exp(E_Rayl_arr[Z][0]) / 1000.0 * (1 - 1e-6); el[ne++] = exp(E_Rayl_arr[Z][NE_Rayl[Z] - 1]) / 1000.0 * (1 + 1e-6); }
     if (in && NE_Compt[Z] > 0) { el[ne++] = exp(E_Compt_arr[Z][0]) / 1000.0 * (1 - 1e-6); el[ne++] = exp(E_Compt_arr[Z][NE_Compt[Z] - 1]) / 1000.0 * (1 + 1e-6); }
     for (int i = 0; i < ne; i++) aggE(Z, el[i]);
-    int nth = thorough ? 13 : 8, nph = thorough ? 6 : 4; int estep = thorough ? 3 : (ne / 7 > 0 ? ne / 7 : 1);
+    int nth = thorough ? 16 : 10, nph = thorough ? 7 : 5; int estep = thorough ? 3 : (ne / 7 > 0 ? ne / 7 : 1);
     for (int i = 0; i < ne; i += estep) for (int a = 0; a < nth; a++) for (int b = 0; b < nph; b++)
       aggA(Z, el[i], TH[thorough ? a : QTH[a]], PH[thorough ? b : QPH[b]]);
   }
